@@ -2,14 +2,14 @@
 package streams
 
 import (
-	"io"
-	"testing/iotest"
 	"bufio"
 	"fmt"
+	"io"
 	"os"
 	"sort"
 	"strconv"
 	"strings"
+	"testing/iotest"
 	"unicode/utf8"
 
 	"github.com/remieven/ysgo"
@@ -79,8 +79,8 @@ type hostRunner struct {
 	storer  variable.Storer
 	log     []string
 	ctl     chan error
-	waiting int // number of options presented by the last element, 0 if none
-	ends    int // consecutive END results; after three, further next operations are skipped (both sides apply this rule)
+	waiting int        // number of options presented by the last element, 0 if none
+	ends    int        // consecutive END results; after three, further next operations are skipped (both sides apply this rule)
 	held    []heldElem // the last elements the runner returned, with what they showed then
 }
 
